@@ -47,7 +47,9 @@ def dds_hash_commut(i: List[Tuple[HashKey, PyHash]]) -> Optional[PyHash]:
 
 
 def _algo_str(s: str) -> PyHash:
-    return _algo_bytes(s.encode("utf-8"))
+    # surrogatepass: a string with lone surrogates (os.fsdecode of a non UTF-8 file name) has no UTF-8 form;
+    # every other string is encoded exactly as before.
+    return _algo_bytes(s.encode("utf-8", "surrogatepass"))
 
 
 def _algo_bytes(b: bytes) -> PyHash:
@@ -67,7 +69,8 @@ def dds_hash(x: Any) -> PyHash:
     type has been flagged in an accepted module.
 
     """
-    max_sequence_size: int = get_option("hash.max_sequence_size")
+    # None (accepted by the option) means no limit
+    max_sequence_size: Optional[int] = get_option("hash.max_sequence_size")
 
     # Some hints for tracing the offending object.
     trace: Deque[Union[int, str]] = deque()
@@ -76,7 +79,7 @@ def dds_hash(x: Any) -> PyHash:
         return ".".join([str(i) if not isinstance(i, str) else i for i in list(trace)])
 
     def check_len(x: Any) -> None:
-        if len(x) > max_sequence_size:
+        if max_sequence_size is not None and len(x) > max_sequence_size:
             raise DDSException(
                 f"Object of type {type(x)} is a sequence of length {len(x)}. "
                 f"Only sequences of length less than {max_sequence_size} are supported. "
@@ -97,6 +100,9 @@ def dds_hash(x: Any) -> PyHash:
         # Supposing for now that any dictionary key is well-behaved with respect to being converted to a string.
         if isinstance(k, str):
             n = k
+        elif isinstance(k, int):
+            # (only a hint for error messages: str() refuses integers of more than 4300 digits)
+            n = str(k) if abs(k) < 10 ** 18 else "<int>"
         else:
             n = str(k)
         return _dds_hash(k, None) + "|" + _dds_hash(v, n)
@@ -145,7 +151,7 @@ def dds_hash(x: Any) -> PyHash:
             # Not going to check for obscure corner cases for now.
             check_len(elt)
             return _dds_hash([_hash_dict_tuple(k, v) for (k, v) in elt.items()], None)
-        if dataclasses.is_dataclass(elt):
+        if dataclasses.is_dataclass(elt) and not isinstance(elt, type):
             names: List[str] = [f.name for f in dataclasses.fields(elt)]
             # TODO: this is not entirely accurate. The error message will show a 'list' type, but it is actually
             # a dataclass.
@@ -153,6 +159,26 @@ def dds_hash(x: Any) -> PyHash:
             vals = [_dds_hash(getattr(elt, n), n) for n in names]
             return _dds_hash(
                 [_hash_dict_tuple(name, h) for (name, h) in zip(names, vals)], None
+            )
+        if (
+            isinstance(elt, (datetime.datetime, datetime.time))
+            and elt.tzinfo is not None
+            and type(elt.tzinfo) is not datetime.timezone
+        ):
+            # A time zone object of another class: its repr may hold a memory address (the default repr) or a
+            # location on this machine (a zone file). The wall time, the offset and the zone name identify the value.
+            naive = elt.replace(tzinfo=None)
+            return _dds_hash(
+                f"{naive!r}|{elt.utcoffset()!r}|{elt.tzname()!r}", None
+            )
+        if (
+            isinstance(elt, datetime.tzinfo)
+            and type(elt).__repr__ is object.__repr__
+        ):
+            raise DDSException(
+                f"The time zone object {type(elt)} has no text form that is stable between processes (it does not "
+                f"define __repr__). Suggestion: use datetime.timezone, or give the class a __repr__.",
+                DDSErrorCode.TYPE_NOT_SUPPORTED,
             )
         if isinstance(
             elt,
@@ -177,7 +203,14 @@ def dds_hash(x: Any) -> PyHash:
         )
         raise DDSException(msg, DDSErrorCode.TYPE_NOT_SUPPORTED)
 
-    return _dds_hash(x, None)
+    try:
+        return _dds_hash(x, None)
+    except RecursionError:
+        raise DDSException(
+            f"Object of type {type(x)} is nested too deeply (or contains itself) to be hashed. "
+            f"Path hint: <{current_path()[:200]}>",
+            DDSErrorCode.TYPE_NOT_SUPPORTED,
+        ) from None
 
 
 def get_arg_list(
